@@ -318,35 +318,52 @@ func checkValidate(c *Ctx, v *ssa.Function, rule string) {
 	if blocks == nil || pStart == nil || pLimit == nil {
 		fatalf("anchor: validate(caller, start, limit, blocks) parameters not found")
 	}
+	// all of validate's checks are located on the inlined view (they may live in
+	// helpers: validateRange, validateChain, linked …); a failing check must make
+	// validate itself return a non-nil error: the function of the check returns
+	// one on that arm and every caller up to validate hands it on
+	reg0 := NewRegion(v)
+	isBlocks := func(x ssa.Value) bool {
+		r := reg0.Resolve(stripConv(x))
+		return r == ssa.Value(blocks) || sameVar(r, blocks)
+	}
 	nonNilRet := func(edges []Edge) bool {
-		// from each edge target every reachable return is a non-nil error
 		for _, e := range edges {
-			ok := true
-			reach(Site{e.To, -1}, func(in ssa.Instruction) bool {
-				if r, isR := in.(*ssa.Return); isR {
-					vals := returnValues(r)
-					if len(vals) != 1 || !definitelyNonNilError(vals[0], nil) {
-						ok = false
-					}
+			fn := e.From.Parent()
+			if g, _ := errorArmLeaves(fn, e, nil, nil); !g {
+				return false
+			}
+			for cur := fn; cur != v; {
+				cs, _ := reg0.site[cur].(*ssa.Call)
+				if cs == nil || !callErrorArmReturns(cs) {
+					return false
 				}
-				return false
-			}, nil)
-			if !ok {
-				return false
+				cur = cs.Parent()
 			}
 		}
 		return len(edges) > 0
 	}
 	// emptiness
 	var emptyEdges []Edge
-	allInstrs(v, func(in ssa.Instruction) {
+	reg0.AllInstrs(func(in ssa.Instruction) {
 		b, ok := in.(*ssa.BinOp)
-		if !ok || !isLenOf(b.X, blocks) {
+		if !ok {
 			return
 		}
-		if n, ok := constInt(b.Y); ok && n == 0 && b.Op == token.EQL {
-			t, _ := boolEdges(b)
+		arg, isLen := lenArg(b.X)
+		if !isLen || !isBlocks(arg) {
+			return
+		}
+		n, okc := constInt(b.Y)
+		if !okc {
+			return
+		}
+		t, f := boolEdges(b)
+		switch {
+		case n == 0 && b.Op == token.EQL, n == 1 && b.Op == token.LSS, n == 0 && b.Op == token.LEQ:
 			emptyEdges = append(emptyEdges, t...)
+		case n == 0 && (b.Op == token.NEQ || b.Op == token.GTR), n == 1 && b.Op == token.GEQ:
+			emptyEdges = append(emptyEdges, f...)
 		}
 	})
 	c.Check(rule, "validate/empty", v.Pos(), nonNilRet(emptyEdges), "an empty result is an error")
@@ -354,10 +371,20 @@ func checkValidate(c *Ctx, v *ssa.Function, rule string) {
 	numOfElem := func(x ssa.Value, last bool) bool {
 		recv, ok := valueMethodArg(x, "eth", "Block", "Num")
 		if !ok {
-			return false
+			// a local copy of the number
+			if u, isU := x.(*ssa.UnOp); isU {
+				if al, isAl := u.X.(*ssa.Alloc); isAl {
+					if cv := cellValue(al); cv != nil {
+						recv, ok = valueMethodArg(cv, "eth", "Block", "Num")
+					}
+				}
+			}
+			if !ok {
+				return false
+			}
 		}
 		s, idx, ok := elemOf(recv)
-		if !ok || !sameVar(s, blocks) {
+		if !ok || !isBlocks(s) {
 			return false
 		}
 		if last {
@@ -366,8 +393,9 @@ func checkValidate(c *Ctx, v *ssa.Function, rule string) {
 		n, ok := constInt(idx)
 		return ok && n == 0
 	}
+	aff0 := &affEnv{reg: reg0}
 	var firstNe, lastNe []Edge
-	allInstrs(v, func(in ssa.Instruction) {
+	reg0.AllInstrs(func(in ssa.Instruction) {
 		b, ok := in.(*ssa.BinOp)
 		if !ok || (b.Op != token.NEQ && b.Op != token.EQL) {
 			return
@@ -378,35 +406,13 @@ func checkValidate(c *Ctx, v *ssa.Function, rule string) {
 		if b.Op == token.EQL {
 			ne = f
 		}
-		if numOfElem(x, false) && y == pStart || numOfElem(y, false) && x == pStart {
+		isStart := func(e ssa.Value) bool { return stripNum(reg0.Resolve(stripNum(e))) == ssa.Value(pStart) }
+		if numOfElem(x, false) && isStart(y) || numOfElem(y, false) && isStart(x) {
 			firstNe = append(firstNe, ne...)
 		}
-		isLastWant := func(e ssa.Value) bool { // start+limit-1
-			var terms []ssa.Value
-			var k int64
-			var flat func(v ssa.Value, sign int64) bool
-			flat = func(v ssa.Value, sign int64) bool {
-				if bb, ok := v.(*ssa.BinOp); ok && (bb.Op == token.ADD || bb.Op == token.SUB) {
-					s2 := sign
-					if bb.Op == token.SUB {
-						s2 = -sign
-					}
-					return flat(bb.X, sign) && flat(bb.Y, s2)
-				}
-				if n, ok := constInt(v); ok {
-					k += sign * n
-					return true
-				}
-				if sign != 1 {
-					return false
-				}
-				terms = append(terms, v)
-				return true
-			}
-			if !flat(e, 1) || k != -1 || len(terms) != 2 {
-				return false
-			}
-			return (terms[0] == pStart && terms[1] == pLimit) || (terms[1] == pStart && terms[0] == pLimit)
+		isLastWant := func(e ssa.Value) bool { // start+limit-1, in any arrangement
+			want := aff0.Of(pStart).add(aff0.Of(pLimit)).sub(konst(1))
+			return linEq(aff0.Of(e), want)
 		}
 		if numOfElem(x, true) && isLastWant(y) || numOfElem(y, true) && isLastWant(x) {
 			lastNe = append(lastNe, ne...)
@@ -430,6 +436,42 @@ func checkValidate(c *Ctx, v *ssa.Function, rule string) {
 		}
 		return nil, false
 	}
+	// a pointer that walks along the slice: prev := &blocks[a]; loop { …; prev = &blocks[e(i)] }:
+	// in the iteration with index i it points at e(i-1) (and at a in the first one)
+	type walker struct {
+		init ssa.Value // index in the first iteration
+		next ssa.Value // index expression assigned for the next iteration
+	}
+	movingPtr := func(x ssa.Value) (*walker, bool) {
+		r := stripConv(x)
+		if u, ok := r.(*ssa.UnOp); ok {
+			if _, isPhi := u.X.(*ssa.Phi); isPhi {
+				r = u.X
+			}
+		}
+		ph, ok := r.(*ssa.Phi)
+		if !ok || len(ph.Edges) != 2 {
+			return nil, false
+		}
+		w := &walker{}
+		for _, ed := range ph.Edges {
+			for _, lf := range phiLeaves(ed) {
+				if lf.Val == ssa.Value(ph) {
+					return nil, false // an iteration may keep the old pointer: pairs would not be adjacent
+				}
+				ia, isIA := stripConv(lf.Val).(*ssa.IndexAddr)
+				if !isIA || !sameVar(reg.Resolve(stripConv(ia.X)), blocks) {
+					return nil, false
+				}
+				if _, isC := ia.Index.(*ssa.Const); isC && w.init == nil {
+					w.init = ia.Index
+				} else {
+					w.next = ia.Index
+				}
+			}
+		}
+		return w, w.init != nil && w.next != nil
+	}
 	var linkOK bool
 	linkDetail := "no comparison of a block's parent hash with the hash of the block before it found"
 	for _, ci := range reg.Calls() {
@@ -438,6 +480,8 @@ func checkValidate(c *Ctx, v *ssa.Function, rule string) {
 			continue
 		}
 		var parentIdx, hashIdx ssa.Value
+		var hashWalk *walker
+		shifted := false
 		for _, a := range call.Call.Args {
 			a = stripConv(a)
 			if root, chain := fieldChain(a); chainIs(chain, fHeader, fParent) {
@@ -454,11 +498,36 @@ func checkValidate(c *Ctx, v *ssa.Function, rule string) {
 					hashIdx = idx
 				}
 			}
+			// the hash side through a pointer that is advanced by the loop
+			if hashIdx == nil && hashWalk == nil {
+				root, chain := fieldChain(a)
+				if recv, ok := valueMethodArg(a, "eth", "Block", "Hash"); ok {
+					root, chain = recv, []*types.Var{fHeader, fHash}
+				}
+				if chainIs(chain, fHeader, fHash) {
+					if wk, ok := movingPtr(root); ok {
+						hashWalk = wk
+					}
+				}
+			}
+		}
+		if parentIdx != nil && hashIdx == nil && hashWalk != nil {
+			// prev in iteration i = next(i-1); adjacent iff parent index == next + … : express prev as next - 1 step
+			pa := aff.Of(parentIdx)
+			na := aff.Of(hashWalk.next)
+			// next(i) must be the current block (so that prev(i+1) = curr(i)), and the first prev = first curr - 1
+			if linEq(pa, na) {
+				hashIdx = parentIdx // placeholder, replaced by the shifted affine below
+				shifted = true
+			}
 		}
 		if parentIdx == nil || hashIdx == nil {
 			continue
 		}
 		pa, ha := aff.Of(parentIdx), aff.Of(hashIdx)
+		if shifted {
+			ha = pa.sub(konst(1)) // prev(i) = curr(i-1) = curr(i) - 1 for a loop that advances by one element
+		}
 		if !linEq(pa.sub(ha), konst(1)) {
 			linkDetail = fmt.Sprintf("the blocks compared are not adjacent: parent of [%s] against hash of [%s]", pa, ha)
 			continue
@@ -487,21 +556,33 @@ func checkValidate(c *Ctx, v *ssa.Function, rule string) {
 				continue
 			}
 			wantHi := aff.lenOf(blocks, 0).sub(konst(1))
+			if shifted && hashWalk != nil && !linEq(aff.Of(hashWalk.init), lo.add(k)) {
+				linkDetail = "the pointer to the previous block does not start at the block before the first one compared"
+				continue
+			}
 			if !linEq(lo.add(k), konst(0)) || !linEq(hi.add(k), wantHi) {
 				linkDetail = fmt.Sprintf("the loop compares the pairs starting at [%s] up to but excluding [%s]; every adjacent pair is [0] … [%s]", lo.add(k), hi.add(k), wantHi)
 				continue
 			}
 			// the comparison happens in every iteration
-			lifted := reg.Lift(call)
-			everyIter := lifted != nil && lifted.Parent() == header.Parent()
+			// the comparison as seen from the function that holds the loop
+			var lifted ssa.Instruction
+			chn := reg.chain(call)
+			at := -1
+			for k, in := range chn {
+				if in.Parent() == header.Parent() {
+					lifted, at = in, k
+				}
+			}
+			everyIter := lifted != nil
 			if everyIter {
 				for _, ed := range enter {
 					if hit, _ := reach(Site{ed.To, -1}, func(in ssa.Instruction) bool { return in.Block() == header }, newCuts().addInstr(lifted)); hit {
 						everyIter = false
 					}
 				}
-				for k := 1; k < len(reg.chain(call)); k++ {
-					if !passesBeforeReturn(reg.chain(call)[k]) {
+				for k := at + 1; k < len(chn); k++ {
+					if !passesBeforeReturn(chn[k]) {
 						everyIter = false
 					}
 				}
@@ -542,17 +623,9 @@ func checkValidate(c *Ctx, v *ssa.Function, rule string) {
 		ch := reg.chain(call)
 		for k := len(ch) - 2; k >= 0 && good; k-- {
 			hc, isCall := ch[k].(*ssa.Call)
-			if !isCall {
+			if !isCall || !callErrorArmReturns(hc) {
 				good = false
-				break
 			}
-			e, has := errResult(hc)
-			if !has || e == nil {
-				good = false
-				break
-			}
-			_, nonNil := nilTestEdges(e)
-			good = nonNilFrom(nonNil, map[ssa.Value]bool{e: true})
 		}
 		if good {
 			linkOK = true
@@ -577,7 +650,7 @@ func checkValidate(c *Ctx, v *ssa.Function, rule string) {
 				// instead require that the test's block dominates the return
 				dom := false
 				for _, e := range es {
-					if e.From.Dominates(r.Block()) {
+					if reg0.Dominates(terminator(e.From), r) {
 						dom = true
 					}
 				}
